@@ -263,6 +263,13 @@ def text_boundaries():
                     n += 1
                     if got != want:
                         bad.append((cidr, mode, str(mk_addr(ipi)), got, want))
+                    if w == 128:
+                        # a scoped peer (what getpeername() reports for link-local peers) decides by its integer value
+                        for zone in ("%eth0", "%1"):
+                            got = drive(ac.process_request("gemini://h/", str(mk_addr(ipi)) + zone))[0][0]
+                            n += 1
+                            if got != want:
+                                bad.append((cidr, mode, str(mk_addr(ipi)) + zone, got, want))
                 # the other address family never matches, whatever its integer value looks like
                 other = ipaddress.IPv6Address if w == 32 else ipaddress.IPv4Address
                 for ipi in (base, base + size - 1):
@@ -292,7 +299,8 @@ META = {
     "assumptions": [
         "SymNet/SymAddr: ipaddress containment = same version and lo <= ip <= hi (cidr_lemma + text_boundaries tie it to reality)",
         "textual CIDR / address parsing is stdlib code that the engine concretises: covered only by the text_boundaries differential",
-        "IPv4-mapped IPv6 peers against IPv4 entries and scoped addresses are a grey zone (undecided)",
+        "IPv4-mapped IPv6 peers against IPv4 entries are a grey zone (undecided); scoped IPv6 peers decide by their integer value "
+        "(probed in text_boundaries with two zone spellings)",
     ],
     "trusted": ["CrossHair 0.0.110 / z3 5.1 / cvc5 1.4", "Python ipaddress"],
 }
